@@ -17,6 +17,8 @@ def parseCfg (cfg : String) : Option (Nat × Int) :=
   match cfg.splitOn ":" with
   | ["r", m] => cfgOfRead (parseInt? m)
   | ["c", b, m] => cfgOfConn (if b == "n" then none else b.toNat?) ((parseInt? m).getD 0)
+  -- `:w`: the stream is served to the connection's second attempt, after an empty one
+  | ["c", b, m, "w"] => cfgOfConn (if b == "n" then none else b.toNat?) ((parseInt? m).getD 0)
   | _ => none
 
 /-- Event boundaries of a stream as the specification sees them (same state machine as
@@ -71,7 +73,7 @@ def mustTooLong (L : Nat) (s : Bytes) : Bool :=
 def parseInitialInterval : Int := 3600000000007
 
 /-- `PARSE <conn> <endErr> <errWithLast> <cfg> <stop: - | k> <lastID> <chunks>`;
-cfg: `-` | `r:<max>` (ReadConfig) | `c:<cap|n>:<max>` (Connection.Buffer) -/
+cfg: `-` | `r:<max>` (ReadConfig) | `c:<cap|n>:<max>[:w]` (Connection.Buffer; `:w` = on the second attempt) -/
 def parse (args : List String) : String × String :=
   match args with
   | c :: e :: ewl :: cfg :: stop :: lid :: chunks :: _ =>
@@ -83,7 +85,9 @@ def parse (args : List String) : String × String :=
     let r := implRun conn (unhex lid) src (parseCfg cfg) stopAt
     let sp := Spec.run .gosse conn (unhex lid) cs.flatten (if endErr then .err else .eof)
     let evs (o : List Out) := o.filter fun x => match x with | .event _ => true | _ => false
-    let wait (o : List Out) := if conn then toString (retryInterval parseInitialInterval o) else "-"
+    -- (`:w`: the connection's initial interval is 1 ms + 7 ns, so that the wait before the second attempt is short)
+    let base : Int := if cfg.endsWith ":w" then 1000007 else parseInitialInterval
+    let wait (o : List Out) := if conn then toString (retryInterval base o) else "-"
     -- the specification's yields, cut where the consumer stops (early stop = prefix)
     let spEvs := evs sp.1
     let cut := match stopAt with | some k => decide (spEvs.length ≥ k) | none => false
